@@ -348,6 +348,43 @@ def rule_str_tag_not_null(ctx, fx, config):
         ctx.check(ok_all, "STYLE", "C06:STYLE:str-tag-not-null:%s" % nm, "a null-like text tagged `!!str` is not answered with null", "%s answers null for a null-like scalar without looking at a `!!str` tag: `!!str null` reads as None / unit / Null while a String target reads \"null\"" % nm, config, ctx.where(f))
 
 
+def rule_str_tag_everywhere(ctx, fx, config, only=None, prop="C06", floor=12):
+    """Every position of the deserializer that asks `is this scalar null-like?` also asks for the `!!str` tag: either the null test
+    runs only where the tag is already known not to be `!!str` (the tag comparison dominates it), or the null-like answer leads to a
+    `!!str` comparison on every path before anything else happens.  (Which edge of the comparison is taken is decided for the three
+    typeless positions by `rule_str_tag_not_null`; here the presence of the test on every path is decided.)"""
+    n = 0
+    for f in sorted(fx.fns.values(), key=lambda g: g.npath):
+        if not f.file.endswith("src/de.rs") and not f.file.endswith("/de.rs") and f.file != "src/de.rs":
+            continue
+        if only is not None and f.npath not in only:
+            continue
+        calls = [(b, t) for b, t in f.calls() if fx.callee(t) in (PS + "scalar_is_nullish", PS + "scalar_is_nullish_for_option")]
+        if not calls:
+            continue
+        ctx.saw(f)
+        tagcmp = []
+        for cb, ct in f.calls():
+            if last_seg(fx.callee(ct)) in ("ne", "eq"):
+                with f.deep():
+                    args = " ".join(render(f.sym_operand(a)) for a in ct["args"])
+                if "SfTag::String" in args:
+                    tagcmp.append(cb)
+        k = 0
+        for b, t in calls:
+            n += 1
+            k += 1
+            e = switch_edges(f, t["t"]) if t.get("t") is not None else None
+            ok = any(f.dominates(c, b) and c != b for c in tagcmp)
+            if not ok and e:
+                ok = bool(tagcmp) and must_pass(f, [e[0]], tagcmp)
+            ctx.check(ok, "STYLE", "%s:STYLE:str-tag-tested-with-null:%s#%d" % (prop, f.npath.replace(DESER, ""), k),
+                      "the null-likeness test is accompanied by a `!!str` tag test on every path",
+                      "%s treats a null-like text as null without looking at a `!!str` tag: `!!str null` / `!!str ~` is read as null (empty container, null merge value, rejected string …) in this position" % f.npath,
+                      config, ctx.where(f, b))
+    ctx.floor("STYLE.null-test-sites", n, floor, config)
+
+
 def rule_trim(ctx, fx, config):
     """TRIM: what the scalar parsers strip around a token is YAML white space and line breaks only — `str::trim` strips
     every Unicode White_Space character (U+00A0, U+2003, U+0085 …), which is content of a plain scalar."""
@@ -506,5 +543,6 @@ def run(ctx):
         rule_any_order(ctx, fx, config)
         rule_trim(ctx, fx, config)
         rule_str_tag_not_null(ctx, fx, config)
+        rule_str_tag_everywhere(ctx, fx, config)
         rule_wire(ctx, fx, config)
         rule_base64(ctx, fx, config)
